@@ -5,6 +5,7 @@ import polars as pl
 
 from ..attributes import BroadcastValue
 from ..pagination.strategies.base import PageContext
+from ..row import TextContent
 from ..services import RTFEncodingService
 from ..services.document_service import RTFDocumentService
 from ..services.figure_service import RTFFigureService
@@ -186,6 +187,8 @@ class PageRenderer:
         text = self._format_group_header(info)
         if not text:
             return ""
+        # Group values are data: escape them like any other text (no conversion)
+        text = TextContent(text=text, convert=False)._convert_special_chars()
         return rf"{{\pard\hyphpar\fi0\li0\ri0\ql\fs18{{\f0 {text}}}\par}}"
 
     def _render_column_headers(self, document: Any, page: PageContext) -> list[str]:
